@@ -52,6 +52,11 @@ def gen(rng):
     if any(s[0] == "macro" for s in prog):
         prog.append(("apply", "rep", [rng.choice([0, 1, 3]), rng.randrange(256)]))
         prog.append(("for", "i", 0, 3, [("apply", "rep", ["i", 7])]))
+    if rng.random() < 0.5:
+        # a condition / bound read through scopes that define NOTHING themselves: a macro without parameters applied in a bare block
+        prog.append(("macro", "flagged", [], [("for", "q", 0, 2, [("if", "ONE", [("db", ["q"])], [("db", [0xEE])]), ("for", "r", 0, "ONE", [("db", [0xCC])])])]))
+        prog.append(("block", [("apply", "flagged", [])]))
+        prog.append(("block", [("block", [("if", "NEG", [("op", "nop")], [("op", "clc")])])]))
     prog.append(("db", ["x"]))  # the outer name is neither overwritten by, nor visible from, the iterations' own assignments
     return prog
 
